@@ -87,6 +87,9 @@ def check_C01(res, scratch, tier, seed):
     earley_trace_part(res, scratch, tier, seed, builds, ("C01",))
     # (T) longer inputs: verdict clauses of ParseTrace.tla
     long_trace_part(res, scratch, tier, seed, builds, ("C01",))
+    # (T) long inputs of random and nested-nullable grammars, grown under the guidance of the abstract states (set core, distance
+    #     pattern) they cover; recorded sets against the ideal ones; continuations generated by TLC where a recorded set lacks items
+    set_sweep_part(res, scratch, tier, seed, builds, ("C01",), n=(80 if tier == "quick" else 1500))
     res.cov["exhaustive"] = True
     res.assumptions = ["small-scope: exhaustive only over the stated families; the corpus (curated, chain families, seeded random) is a sample judged by TLC",
                        "vectors are computed by TLC from spec/Deriv.tla"]
@@ -210,6 +213,18 @@ def check_recov(res, scratch, tier, seed, prop, rule):
     for tag, cfg in recov_families(tier, prop):
         run_family(res, scratch, tag, cfg, mk, builds=builds, mine=only(prop), timeout=3000)
     corpus_part(res, scratch, tier, seed, prop, matrix, ("curated", "random_err"), recov=(0 if prop == "C06" else 3), builds=builds, want_trees=False)
+    # --- (D) build_pl + error_recovery as a machine (Recovery.tla): RecFound, MinimalFirst (C08), ReportsOK (C06), EndsAccepted, and the
+    #     agreement of the Earley-set oracle with the declarative one
+    t = run_tlc(scratch, "MCRecovery", "SPECIFICATION RSpec\nCONSTANTS\n  GrammarsR <- CuratedR\n  InputsR <- AllInputs\n  MatchVals = {1, 2, 3}\n  MaxLen = %d\n"
+                "INVARIANTS RecFound MinimalFirst ReportsOK EndsAccepted StackShape%s\nCHECK_DEADLOCK FALSE\n" % ((4, " OraclesAgree") if tier == "quick" else (6, "")),
+                "recovery", timeout=3000)
+    if t["status"] == "violation":
+        res.violation("spec-invariant:Recovery", {"tlc_tail": t["tail"][-3000:]})
+    elif t["status"] != "ok":
+        raise Infra("TLC MCRecovery: %s\n%s" % (t["status"], t["tail"][-2500:]))
+    res.add_tlc(t)
+    # --- longer inputs, nested error levels: recorded callbacks against the Earley-set oracle, recorded search against the machine
+    recovery_trace_part(res, scratch, tier, seed, builds, (prop,))
     res.cov["exhaustive"] = True
 
 
@@ -270,6 +285,9 @@ def check_C13(res, scratch, tier, seed):
                  ("E2u", mcgram_cfg([1, 2], [11, 12], 2, 2, 4, True, [0, 4], False))]
     for tag, cfg in fams:
         run_family(res, scratch, tag, cfg, mk, builds=builds, mine=mine, timeout=3000)
+    # the corpus: rules with three and more translated children, nil and terminal nodes shared between abstract nodes, longer inputs
+    corpus_part(res, scratch, tier, seed, "C13", matrix, ("curated", "random_trans", "random_amb"), trees=False, builds=builds, mems=(0, 0, 1, 0, 2), mine=mine,
+                want_trees=False)
     res.cov["exhaustive"] = True
 
 
@@ -396,7 +414,7 @@ def corpus_entries(tier, seed, kinds):
     if "curated" in kinds:
         ents += _corpus.curated()
     if "loops" in kinds:
-        ents += _corpus.loop_shapes()
+        ents += _corpus.loop_shapes() + _corpus.loop_repeats()
     if "chains" in kinds:
         ents += _corpus.chain_family(5) + _corpus.loop_via_late_nullable()
         if tier == "thorough":
@@ -1177,6 +1195,277 @@ def earley_trace_part(res, scratch, tier, seed, builds, props, kinds=("curated",
     res.notes["diag_sets_differing_from_ideal_at_la0"] = res.notes.get("diag_sets_differing_from_ideal_at_la0", 0) + ndiag
     if lines:
         res.cov["samples"].append({"set_trace_line": lines[len(lines) // 2]})
+
+
+def recovery_trace_part(res, scratch, tier, seed, builds, props):
+    """Parses with recovery on of the recovery corpus (nested error levels, damaged sentences of 5-14 tokens), recorded with the
+    hook events of error_recovery, validated by TLC against RecTrace.tla: callbacks against the Earley-set oracle of Recovery.tla
+    (C01/C06/C08) at every lookahead level, popped states and finished recoveries against the machine at level 0 (drift only)."""
+    import concurrent.futures as cf
+    ents = _corpus.recovery_corpus(seed, 20 if tier == "quick" else 120)
+    code = CODEMAPS["ascii"]
+    mx = [(la, 1, 0, 1, m, 0) for la in (0, 1, 2) for m in (1, 2, 3)]
+    blocks, meta = [], {}
+    for e in ents:
+        vec = {"id": e["id"], "terms": e["terms"], "rules": e["rules"], "dn": [], "ds": [], "cases": [{"w": w, "sent": False, "nd": 0, "fo": -1} for w in e["inputs"]]}
+        b = blocks_from_vector(vec, mx, mems=(1,), want_trees=False)
+        if not b:
+            continue
+        b = [ln.replace("X sent=0 nd=-1", "X sent=-1") if ln.startswith("X ") else ln for ln in b]
+        blocks.append(b)
+        meta[e["id"]] = e
+    recs, st = run_harness(os.path.join(builds[0], "yv_replay"), blocks, args=("-t", "-s"))
+    lines = []
+    for r in recs:
+        if r.get("e") == "Abort":
+            res.violation(abort_key(r), dict(r, block=(r.get("block") or [])[:20]))
+        if r.get("k") != "parse" or r["rc"] != 0 or not r["rec"]:
+            continue
+        e = meta[r["g"]]
+        c2n = {code(t["c"]): t["n"] for t in e["terms"]}
+        if any(c not in c2n for c in r["toks"]):
+            continue
+        base = {"terms": [t["n"] for t in e["terms"]], "rules": e["rules"], "w": [c2n[c] for c in r["toks"]], "match": r["match"], "la": r["la"]}
+        lid = "%s/%s/%d,%d" % (r["g"], r["w"], r["la"], r["match"])
+        lines.append(dict(base, id=lid, kind="oracle", calls=[c[:3] for c in r["calls"]]))
+        if r["la"] == 0:
+            pops = [[ev["a"], ev["b"], ev["c"], ev["d"], ev["e"]] for ev in r.get("ev", []) if ev["k"] == 4]
+            rcs = [[ev["a"], ev["b"], ev["c"], ev["d"], ev["e"]] for ev in r.get("ev", []) if ev["k"] == 3]
+            lines.append(dict(base, id=lid + "/mach", kind="mach", pops=pops, recs=rcs))
+    chunks = [lines[i:i + 150] for i in range(0, len(lines), 150)]
+    cfgx = "CONSTANTS\n  GrammarsR <- DummyG\n  InputsR <- DummyI\n  MatchVals = {1}\n"
+
+    def work(args):
+        i, ch = args
+        return validate_trace(scratch, "RecTrace", ch, "rec_tr%d" % i, timeout=3000, cfg_extra=cfgx), ch
+    ndrift = 0
+    with cf.ThreadPoolExecutor(max_workers=max(1, NCPU // 2)) as ex:
+        for (ok, rej, tt), ch in ex.map(work, list(enumerate(chunks))):
+            if not ok:
+                raise Infra("RecTrace validation did not finish: " + tt["tail"][-2500:])
+            res.cov["states"] += tt.get("distinct", 0)
+            res.cov["transitions"] += tt.get("states", 0)
+            res.cov["traces_validated_against_impl"] += len(ch)
+            for (lno, lid, reasons) in rej:
+                for reason in reasons:
+                    if reason.startswith("DRIFT"):
+                        ndrift += 1
+                        if len(res.notes.setdefault("recovery_machine_drift_examples", [])) < 3:
+                            res.notes["recovery_machine_drift_examples"].append({"line": ch[lno - 1], "reason": reason})
+                    elif any(reason.startswith(p) for p in props):
+                        res.violation("trace|" + reason, {"line": ch[lno - 1], "reason": reason})
+    res.notes["recovery_lines_validated"] = res.notes.get("recovery_lines_validated", 0) + len(lines)
+    res.notes["recovery_machine_drift"] = res.notes.get("recovery_machine_drift", 0) + ndrift
+    res.cov["distinct_nontrivial"] += sum(1 for ln in lines if ln["kind"] == "oracle" and ln["calls"])
+    if lines:
+        res.cov["samples"].append({"recovery_trace_line": lines[len(lines) // 2]})
+
+
+def set_sweep_part(res, scratch, tier, seed, builds, props, n=None):
+    """Long inputs (6-20 tokens) of random grammars with many nullable and ambiguous symbols, lookahead 0..2, recovery off and on.
+    (1) return code, root and callbacks are judged by TLC with the Earley sets of RelSets (RecTrace.tla, kind recog);
+    (2) the sets recorded at lookahead 0 are validated against the ideal sets (EarleyTrace.tla);
+    (3) where a recorded set is a proper subset of the ideal one - no violation by itself - TLC searches for continuations that
+        the ideal recognizer accepts and one with the recorded set does not (Witness.tla); the library parses them and the outcome
+        is judged as in (1): only a wrong outcome on a real input is reported."""
+    import concurrent.futures as cf
+    n = n or (150 if tier == "quick" else 1500)
+    ents = _corpus.long_random_entries(seed, n) + _corpus.nested_nullable_family(seed, 30 if tier == "quick" else 300)
+    code = CODEMAPS["ascii"]
+    mx = [(0, 1, 0, 0, 3, 0), (1, 1, 0, 0, 3, 0), (2, 1, 0, 1, 2, 0)]
+    cfgx = "CONSTANTS\n  GrammarsR <- DummyG\n  InputsR <- DummyI\n  MatchVals = {1}\n"
+
+    def mkblocks(entries, matrix):
+        blocks, meta = [], {}
+        for e in entries:
+            # ds non-empty: defined with strict = 0 (unreachable and unproductive nonterminals are frequent in random rule sets)
+            vec = {"id": e["id"], "terms": e["terms"], "rules": e["rules"], "dn": [], "ds": [1], "cases": [{"w": w, "sent": False, "nd": 0, "fo": -1} for w in e["inputs"]]}
+            b = blocks_from_vector(vec, matrix, mems=(1,), want_trees=False)
+            if not b:
+                continue
+            blocks.append([ln.replace("X sent=0 nd=-1", "X sent=-1") if ln.startswith("X ") else ln for ln in b])
+            meta[e["id"]] = e
+        return blocks, meta
+
+    def recog_lines(recs, meta):
+        out = []
+        for r in recs:
+            if r.get("e") == "Abort":
+                res.violation(abort_key(r), dict(r, block=(r.get("block") or [])[:20]))
+            if r.get("k") != "parse":
+                continue
+            e = meta[r["g"]]
+            c2n = {code(t["c"]): t["n"] for t in e["terms"]}
+            out.append({"id": "%s/%s/%d,%d" % (r["g"], r["w"], r["la"], r["rec"]), "kind": "recog", "terms": [t["n"] for t in e["terms"]], "rules": e["rules"],
+                        "w": [c2n[c] for c in r["toks"]], "match": r["match"], "la": r["la"], "rec": r["rec"], "rc": r["rc"], "root": r["root"],
+                        "calls": [c[:3] for c in r["calls"]]})
+        return out
+
+    def validate(module, lines, tag, chunk, extra=""):
+        chunks = [lines[i:i + chunk] for i in range(0, len(lines), chunk)]
+        rejected = []
+
+        def work(args):
+            i, ch = args
+            return validate_trace(scratch, module, ch, "%s%d" % (tag, i), timeout=3000, cfg_extra=extra), ch
+        with cf.ThreadPoolExecutor(max_workers=max(1, NCPU // 2)) as ex:
+            for (ok, rej, tt), ch in ex.map(work, list(enumerate(chunks))):
+                if not ok:
+                    raise Infra("%s (%s) did not finish: %s" % (module, tag, tt["tail"][-2500:]))
+                res.cov["states"] += tt.get("distinct", 0)
+                res.cov["transitions"] += tt.get("states", 0)
+                res.cov["traces_validated_against_impl"] += len(ch)
+                for (lno, lid, reasons) in rej:
+                    rejected.append((ch[lno - 1], reasons))
+        return rejected
+
+    # (0) grow the inputs, guided by the abstract states of the specification that the recorded sets cover: a feature is a
+    #     set core (the situations without distances) together with the equality pattern of its distances - the same core met
+    #     with different patterns is where data shared between sets through the core can go wrong.  Generation only; every kept
+    #     input is judged below like the others.
+    def features(r):
+        fs = set()
+        for ev in r.get("ev", []):
+            if ev["k"] != 1:
+                continue
+            core = tuple((it[0], it[1]) for it in ev["it"])
+            rank, pat = {}, []
+            for it in ev["it"]:
+                pat.append(rank.setdefault(it[2], len(rank)))
+            fs.add((hash(core), tuple(pat)))
+        return fs
+    rnd = random.Random(seed + 17)
+    guided = [e for e in ents if e["id"].startswith("nestnull")] + [e for e in ents if not e["id"].startswith("nestnull")][:(40 if tier == "quick" else 400)]
+    seen = {}
+    pools = {e["id"]: [w for w in e["inputs"]] for e in guided}
+    gm = [(0, 1, 0, 0, 3, 0)]
+    for rd in range(4 if tier == "quick" else 8):
+        cand = []
+        for e in guided:
+            ws = pools[e["id"]]
+            news = list(ws) if rd == 0 else []
+            if rd > 0:
+                for _ in range(24):
+                    w = list(rnd.choice(ws))
+                    kind = rnd.randrange(5)
+                    if kind == 0 and len(ws) > 1:          # splice: prefix of one with a suffix of another
+                        v = rnd.choice(ws)
+                        w = w[:rnd.randrange(len(w) + 1)] + v[rnd.randrange(len(v) + 1):]
+                    elif kind == 1 and w:                   # repeat a fragment
+                        a = rnd.randrange(len(w))
+                        b = min(len(w), a + rnd.randint(1, 5))
+                        w = w[:b] + w[a:b] + w[b:]
+                    elif kind == 2 and w:
+                        w[rnd.randrange(len(w))] = rnd.choice(e["alphabet"])
+                    elif kind == 3:
+                        w.insert(rnd.randrange(len(w) + 1), rnd.choice(e["alphabet"]))
+                    elif w:
+                        del w[rnd.randrange(len(w))]
+                    if 0 < len(w) <= 26 and w not in ws and w not in news:
+                        news.append(w)
+            if news:
+                cand.append(dict(e, inputs=news))
+        gblocks, gmeta = mkblocks(cand, gm)
+        grecs, st = run_harness(os.path.join(builds[0], "yv_replay"), gblocks, args=("-t", "-s"))
+        for r in grecs:
+            if r.get("k") != "parse":
+                continue
+            fs = features(r)
+            sg = seen.setdefault(r["g"], set())
+            if fs - sg:
+                sg |= fs
+                e = gmeta[r["g"]]
+                c2n = {code(t["c"]): t["n"] for t in e["terms"]}
+                w = [c2n[c] for c in r["toks"]]
+                if w not in pools[r["g"]]:
+                    pools[r["g"]].append(w)
+    for e in guided:
+        e["inputs"] = pools[e["id"]][:(40 if tier == "quick" else 80)]
+    res.notes["guided_inputs_kept"] = res.notes.get("guided_inputs_kept", 0) + sum(len(e["inputs"]) for e in guided)
+    res.notes["guided_core_pattern_features"] = res.notes.get("guided_core_pattern_features", 0) + sum(len(v) for v in seen.values())
+    blocks, meta = mkblocks(ents, mx)
+    recs, st = run_harness(os.path.join(builds[0], "yv_replay"), blocks, args=("-t", "-s"))
+    # (1)
+    lines = recog_lines(recs, meta)
+    for ln, reasons in validate("RecTrace", lines, "recog_tr", 200, cfgx):
+        for reason in reasons:
+            if any(reason.startswith(p) for p in props):
+                res.violation("trace|" + reason, {"line": ln, "reason": reason})
+    res.notes["long_recognition_parses_validated"] = res.notes.get("long_recognition_parses_validated", 0) + len(lines)
+    res.notes["long_recognition_sentences"] = res.notes.get("long_recognition_sentences", 0) + sum(1 for ln in lines if not ln["calls"])
+    # (2)
+    slines = []
+    for r in recs:
+        if r.get("k") != "parse" or r["la"] != 0:
+            continue
+        e = meta[r["g"]]
+        c2n = {code(t["c"]): t["n"] for t in e["terms"]}
+        c2n[-2] = 0
+        c2n[-1] = -1
+        evs = [{"k": ev["k"], "a": ev["a"], "c": ev["c"], "e": ev["e"], "f": c2n.get(ev["f"], -99) if ev["a"] > 0 else 0, "it": [it[:3] for it in ev["it"]]}
+               for ev in r.get("ev", []) if ev["k"] in (1, 2)]
+        slines.append({"id": "%s/%s/%d,%d" % (r["g"], r["w"], r["la"], r["rec"]), "terms": [t["n"] for t in e["terms"]], "rules": e["rules"], "n": r["n"], "la": r["la"],
+                       "ev": evs, "_g": r["g"], "_alpha": e["alphabet"]})
+    cases = []
+    nsets = 0
+    for ln, reasons in validate("EarleyTrace", [{k: v for k, v in ln.items()} for ln in slines], "sweep_sets", 300):
+        for reason in reasons:
+            if reason.startswith("DIAG"):
+                m = re.search(r"at event (\d+)", reason)
+                if not m:
+                    continue
+                i = int(m.group(1)) - 1
+                ev = ln["ev"][i]
+                syms = []
+                for x in ln["ev"][:i + 1]:
+                    if x["k"] == 1 and x["a"] > 0:
+                        syms = syms[:x["a"] - 1] + [x["f"]]
+                if ev["k"] != 1 or 0 in syms:
+                    continue           # continuations are generated for plain prefixes only (no error shifted before)
+                cases.append({"id": ln["id"], "terms": ln["terms"], "rules": ln["rules"], "syms": syms, "alphabet": ln["_alpha"],
+                              "got": [[it[0], it[1], ev["a"] - it[2]] for it in ev["it"]], "_g": ln["_g"]})
+            elif any(reason.startswith(p) for p in props):
+                res.violation("trace|" + reason, {"line": {k: v for k, v in ln.items() if not k.startswith("_")}, "reason": reason})
+    res.notes["set_events_validated"] = res.notes.get("set_events_validated", 0) + sum(len(ln["ev"]) for ln in slines)
+    res.notes["diag_sets_differing_from_ideal_at_la0"] = res.notes.get("diag_sets_differing_from_ideal_at_la0", 0) + len(cases)
+    # (3)
+    if cases:
+        cases = cases[:400]
+        path = scratch.path("witness_cases.ndjson")
+        with open(path, "w") as f:
+            for c in cases:
+                f.write(json.dumps({k: v for k, v in c.items() if not k.startswith("_")}) + "\n")
+        t = run_tlc(scratch, "Witness", "SPECIFICATION WSpec\nCONSTANTS\n  MaxSuffix = %d\nINVARIANTS EmitWitness\nCHECK_DEADLOCK FALSE\n" % (7 if tier == "quick" else 9),
+                    "witness", timeout=3000, env={"TRACE": path})
+        if t["status"] != "ok":
+            raise Infra("TLC Witness: %s\n%s" % (t["status"], t["tail"][-2500:]))
+        res.add_tlc(t)
+        byid = {c["id"]: c for c in cases}
+        per = {}
+        for v in tlc_vectors(t["out"]):
+            c = byid.get(v["id"])
+            if c is None:
+                continue
+            lst = per.setdefault((c["_g"], tuple(c["syms"])), [])
+            if len(lst) < 6:
+                lst.append(c["syms"] + list(v["suf"]))
+        went = {}
+        for (g, _p), ws in per.items():
+            went.setdefault(g, [])
+            for w in ws:
+                if w not in went[g]:
+                    went[g].append(w)
+        res.notes["witness_candidates"] = res.notes.get("witness_candidates", 0) + sum(len(v) for v in went.values())
+        wents = [dict(meta[g], inputs=ws) for g, ws in went.items()]
+        wblocks, wmeta = mkblocks(wents, [(0, 1, 0, 0, 3, 0), (1, 1, 0, 1, 3, 0)])
+        if wblocks:
+            wrecs, st = run_harness(os.path.join(builds[0], "yv_replay"), wblocks, args=("-t",))
+            wl = recog_lines(wrecs, wmeta)
+            for ln, reasons in validate("RecTrace", wl, "witness_tr", 200, cfgx):
+                for reason in reasons:
+                    if any(reason.startswith(p) for p in props):
+                        res.violation("trace|" + reason, {"line": ln, "reason": reason, "found_by": "continuation generated by Witness.tla from a recorded set that lacks ideal items"})
+            res.notes["witness_parses_validated"] = res.notes.get("witness_parses_validated", 0) + len(wl)
 
 
 # ------------------------------------------------------------------ self-test of the binding (not a registered check)
